@@ -257,7 +257,31 @@ func (e *eenv) doReconf(st *simkit.Step) {
 			return
 		}
 	}
-	// back to the original configuration: must boot and serve everything unchanged
+	if p == "" && st.C == 1 {
+		// the operator keeps the new schedule: the other node is moved to it as well (it holds the same
+		// chain or a prefix of it, so what is compatible for the first is compatible for it unless its
+		// best block says otherwise), and everything from here on runs under the new heights
+		other := e.P
+		if n == e.P {
+			other = e.V
+		}
+		if !modelRefuse(old, nw, other.Best().BlockNo()) {
+			e.hf = cfg
+			e.net.Hardfork = cfg
+			// the version table the nodes must serve from now on is the one of the kept schedule (it was
+			// just compared with what the re-booted node serves); heights at or below the best block
+			// keep their versions because no passed fork moved
+			tab := make([]int32, len(e.probeHs))
+			for i, h := range e.probeHs {
+				tab[i] = modelVersion(cfg, h)
+			}
+			e.verTab = tab
+			x.Probe("reconfiguration-kept")
+			x.Logf("reconf kept: heights now %v", nw)
+		}
+	}
+	// back to the configuration in force (the original one, or the one just kept): must boot and
+	// serve everything unchanged
 	for _, m := range []*simnode.Node{e.P, e.V} {
 		if !e.reboot(m) || !e.readBack("after-reconfiguration", m) {
 			return
